@@ -96,3 +96,47 @@ def const_str(prog: Program, fi: FuncInfo, node):
     if isinstance(v, Hole):
         return None
     return v
+
+
+def recording_wrappers(prog: Program) -> dict:
+    """Executor methods that are wrappers of Workflow.update_file_hashes.
+
+    A wrapper is synchronous and calls update_file_hashes as a statement of its own body, so every path through it
+    records (Min et al.: treat a wrapper as the call it always makes).  A rule that asks "are the hashes recorded
+    here" must accept a call of such a wrapper for the call itself, or a repair that moves the call into a helper
+    (as Executor._record_written_outputs) raises a false alarm.  Returns name -> (FuncInfo, inner call).
+    """
+    out = {}
+    for f in prog.all_functions():
+        if f.module.name != "executor" or f.parent is not None or isinstance(f.node, ast.AsyncFunctionDef):
+            continue
+        for st in f.node.body:
+            if isinstance(st, ast.Expr) and isinstance(st.value, ast.Call) and callee_name(st.value) == "update_file_hashes":
+                out[f.name] = (f, st.value)
+    return out
+
+
+def norm_record_events(prog: Program, tr):
+    """A path in which a call of a recording wrapper reads as the update_file_hashes call it stands for:
+    same mapping argument as the outer call, the cause of the inner call with the wrapper's parameters substituted."""
+    wr = recording_wrappers(prog)
+    if not wr:
+        return tr
+    out = []
+    for e in tr:
+        if e[0] == "call" and isinstance(e[2], ast.Call) and callee_name(e[2]) in wr:
+            f, inner = wr[callee_name(e[2])]
+            params = [a.arg for a in f.node.args.args if a.arg != "self"]
+            bound = {p: a for p, a in zip(params, e[2].args)}
+            bound.update({k.arg: k.value for k in e[2].keywords if k.arg})
+            cause = kwarg(inner, "cause")
+            if isinstance(cause, ast.Name) and cause.id in bound:
+                cause = bound[cause.id]
+            synth = ast.Call(func=ast.Attribute(value=ast.Attribute(value=ast.Name(id="self", ctx=ast.Load()), attr="workflow", ctx=ast.Load()), attr="update_file_hashes", ctx=ast.Load()),
+                             args=list(e[2].args[:1]), keywords=[ast.keyword(arg="cause", value=cause)] if cause is not None else [])
+            ast.copy_location(synth, e[2])
+            ast.fix_missing_locations(synth)
+            out.append(("call", "self.workflow.update_file_hashes", synth) + tuple(e[3:]))
+        else:
+            out.append(e)
+    return type(tr)(out) if isinstance(tr, (list, tuple)) else out
